@@ -219,6 +219,9 @@ func (s *V2Session) buildAndSend(ctx context.Context, c ipmi.Command) error {
 			return fmt.Errorf("response is for session %#x, expected %#x",
 				s.v2SessionLayer.ID, s.LocalID)
 		}
+		if err := validateResponseOperation(c.Operation(), &s.messageLayer.Operation); err != nil {
+			return err
+		}
 		code := s.messageLayer.CompletionCode
 		// must increment here, otherwise we'll miss temporary codes at the
 		// higher levels
